@@ -176,6 +176,14 @@ class DirectoryCleanupProgress(object):
         False
         >>> DirectoryCleanupProgress.can_skip('/01/000/001', '/01/000/001/000')
         False
+
+        Directories named by numbers are compared as numbers (levels of
+        the tms layout are not zero-padded):
+
+        >>> DirectoryCleanupProgress.can_skip('/9', '/10')
+        False
+        >>> DirectoryCleanupProgress.can_skip('/10', '/9')
+        True
         """
         if old_dir is None:
             return False
@@ -186,6 +194,8 @@ class DirectoryCleanupProgress(object):
                 return False
             if current is None:
                 return False
+            if old.isdigit() and current.isdigit():
+                old, current = int(old), int(current)
             if old < current:
                 return False
             if old > current:
